@@ -13,6 +13,7 @@ CONSTANTS
   HydCounts = {1, 2}
   ChargeToks <- Q_Few
   PrefixSet = {"alpha-"}
+  MaxPrefixes = 1
   SuffixSet = {"(aq)"}
   PrimeMarks = {}
   MaxPrimes = 0
